@@ -97,7 +97,7 @@ func history(r drv.Rand, idx int) *h.World {
 	fixed := opfix.Router(idx % 2)
 	w.Tags["router="+fixed.String()] = true
 	// flows: an opaque client, a JWT client, often an expired one and a subject with a colon
-	w.Issue(fixed, drv.Pick(r, []string{"web", "native"}), drv.Pick(r, []string{"alice", "bob", "a:b"}), drv.Pick(r, issueSets))
+	w.Issue(fixed, drv.Pick(r, []string{"web", "native", "webnr"}), drv.Pick(r, []string{"alice", "bob", "a:b"}), drv.Pick(r, issueSets))
 	w.Issue(fixed, drv.Pick(r, []string{"web2", "spa"}), drv.Pick(r, []string{"alice", "bob", "a:b"}), drv.Pick(r, issueSets))
 	if r.Chance(1, 2) {
 		w.Issue(fixed, drv.Pick(r, []string{"webx", "web2x"}), "alice", drv.Pick(r, issueSets))
@@ -137,7 +137,7 @@ func history(r drv.Rand, idx int) *h.World {
 		e := h.Exch{Subj: subj, SubjType: styp}
 		switch k := r.IntN(20); {
 		case k < 15:
-			e.Cred = h.BasicCred(drv.Pick(r, []string{"web", "web2", "webx", "web", "web2"}))
+			e.Cred = h.BasicCred(drv.Pick(r, []string{"web", "web2", "webx", "web", "web2", "webnr", "webnr", "web2nx"}))
 		case k < 16:
 			e.Cred = h.GoodCred(drv.Pick(r, []string{"web2", "native", "spa"}))
 		case k < 17:
